@@ -263,7 +263,12 @@ def execute(check, tier, seed, budget_s=None, out=sys.stdout):
             h1 = [r.get("log_hash") for r in rec["runs"]]
             h2 = [r.get("log_hash") for r in again["runs"]]
             if h1 != h2:
-                out.write("HARNESS-ERROR nondeterministic replay of a campaign item (event-log hashes differ)\n")
+                try:
+                    os.makedirs(build.CACHE, exist_ok=True)
+                    json.dump({"item": rec["item"], "pool": rec["runs"], "again": again["runs"]}, open(os.path.join(build.CACHE, "nondet-%s.json" % check.prop), "w"))
+                except Exception:
+                    pass
+                out.write("HARNESS-ERROR nondeterministic replay of a campaign item (event-log hashes differ; details in .cache/nondet-%s.json)\n" % check.prop)
                 return 2
         # confirm + report violations
         reported = []
